@@ -639,6 +639,10 @@ class _SetOperation(Selectable, Term):  # type:ignore[misc]
 
     def get_sql(self, ctx: SqlContext) -> str:
         set_operation_template = " {type} {query_string}"
+        # the flags of the embedding position decide only about the parentheses and the alias around the whole
+        # set operation; its operands, ORDER BY and row limit are rendered as they are stand-alone
+        embed_ctx = ctx
+        ctx = ctx.copy(subquery=False, with_alias=False, subcriterion=False, with_namespace=False)
         if ctx.dialect in (Dialects.MSSQL, Dialects.ORACLE):
             # these dialects do not support GROUP BY a field alias - also inside operands built with other classes
             ctx = ctx.copy(groupby_alias=False)
@@ -677,10 +681,10 @@ class _SetOperation(Selectable, Term):  # type:ignore[misc]
 
         querystring += self._pagination_sql(ctx)
 
-        if ctx.subquery:
+        if embed_ctx.subquery:
             querystring = "({query})".format(query=querystring)
 
-        if ctx.with_alias:
+        if embed_ctx.with_alias:
             return format_alias_sql(querystring, self.alias, ctx)
 
         return querystring
